@@ -154,7 +154,7 @@ def run(scn, H, execu):
             return H, out, st
         d = c12.compare(v, ea, vb, eb, 1e-8, st)
         st['instants'] += v.n_valid(ea)
-        if d is not None:
+        if d is not None and d['what'] != 'length':
             why = c12.fragile([(v, ea), (vb, eb)], d['k'])
             if why:
                 st['threshold_fragile'] += 1
@@ -165,6 +165,21 @@ def run(scn, H, execu):
             out.append(Violation(PROP, f"history/{d['what']}", dict(
                 d, epoch=ea['index'])))
             return H, out, st
+        # the common prefix agrees: segments must end at the same instants (an early stop that fires
+        # in one execution only shifts everything after it)
+        for sa, sb in zip(ea['segments'], eb['segments']):
+            if sa['i1'] != sb['i1']:
+                kk = min(sa['i1'], sb['i1']) - 1
+                if c12.fragile([(v, ea), (vb, eb)], max(kk, 0)):
+                    st['threshold_fragile'] += 1
+                    return H, out, st
+                if c12.amplifies_rounding(scn, execu, 1e-8):
+                    st['discarded_unstable'] += 1
+                    return H, out, st
+                out.append(Violation(PROP, 'history/segment-length', {
+                    'epoch': ea['index'], 'A_ends_at': sa['i1'],
+                    'B_ends_at': sb['i1'], 'stop': sa['stop']}))
+                return H, out, st
     if first_div is not None:
         # a differing op outcome without any divergence of the histories:
         # explained if a discrete decision of the last common instants is
@@ -176,6 +191,9 @@ def run(scn, H, execu):
             if c12.fragile([(v, ea), (vb, eb)], max(kk, 0)):
                 st['threshold_fragile'] += 1
                 return H, out, st
+        if c12.amplifies_rounding(scn, execu, 1e-8):
+            st['discarded_unstable'] += 1
+            return H, out, st
         out.append(Violation(PROP, f'{first_div[0]}', {
             'index': first_div[1], 'A': first_div[2], 'B': first_div[3]}))
         return H, out, st
@@ -197,6 +215,12 @@ def run(scn, H, execu):
                     sc = sc_si.get((p, var), 0.0)
                     if var != 'pwm' and si.VAR_KIND.get(var):
                         sc = sc / si.factor(si.VAR_KIND[var], unit_of(var, kw))
+                    if var == 'contact stress' and xa is not None and \
+                            xb is not None:
+                        # sqrt of a force: compare squares (see c12.compare)
+                        m2 = max(sc, abs(xa), abs(xb)) ** 2
+                        if abs(xa * xa - xb * xb) <= 1e-8 * m2:
+                            continue
                     if (xa is None) != (xb is None) or (
                             xa is not None and
                             abs(xa - xb) > 1e-8 * max(sc, abs(xa), abs(xb)) + 1e-300):
